@@ -8,6 +8,7 @@ from ConfigSpace.hyperparameters import (
     NumericalHyperparameter,
     OrdinalHyperparameter,
 )
+from ConfigSpace.exceptions import ForbiddenValueError
 from ConfigSpace.util import deactivate_inactive_hyperparameters
 
 from deephyper.evaluator import HPOJob
@@ -76,6 +77,7 @@ class RegularizedEvolution(Search):
         self.population_size = population_size
         self.sample_size = sample_size
         self._population = deque(maxlen=self.population_size)
+        self._max_mutation_trials = 100
 
     def _ask(self, n: int = 1) -> List[Dict]:
         """Ask the search for new configurations to evaluate.
@@ -126,18 +128,27 @@ class RegularizedEvolution(Search):
 
                 parent_sample = max(samples, key=lambda x: x[1])[0]
 
-                child_sample = parent_sample.copy()
                 active_hyperparameter_names = list(
                     space.get_active_hyperparameters(
-                        deactivate_inactive_hyperparameters(child_sample, space)
+                        deactivate_inactive_hyperparameters(parent_sample.copy(), space)
                     )
                 )
-                hp_name = self._random_state.choice(active_hyperparameter_names)
-                hp = space[hp_name]
-                hp_value = hp.rvs(size=None, random_state=space.random)
 
-                child_sample[hp_name] = hp_value
-                child_sample = dict(deactivate_inactive_hyperparameters(child_sample, space))
+                # A mutation can violate a forbidden clause of the space, in which case an other
+                # mutation is drawn. The parent is kept if no valid mutation is found.
+                child_sample = parent_sample.copy()
+                for _ in range(self._max_mutation_trials):
+                    mutated_sample = parent_sample.copy()
+                    hp_name = self._random_state.choice(active_hyperparameter_names)
+                    hp = space[hp_name]
+                    mutated_sample[hp_name] = hp.rvs(size=None, random_state=space.random)
+                    try:
+                        child_sample = dict(
+                            deactivate_inactive_hyperparameters(mutated_sample, space)
+                        )
+                        break
+                    except ForbiddenValueError:
+                        continue
 
                 for hp_name in self._problem.hyperparameter_names:
                     # If the parameter is inactive due to some conditions then we attribute the
